@@ -658,6 +658,9 @@ func callSSA(i *interpreter, caller *frame, callpos token.Pos, fn *ssa.Function,
 		if fr.depth > 20000 {
 			cur.abort("budget", "call depth exceeds 20000 frames")
 		}
+		if fr.depth > cur.maxDepth {
+			cur.maxDepth = fr.depth
+		}
 	}
 	fi := i.fnInfo(fn)
 	if fi.ext != nil {
